@@ -570,6 +570,15 @@ def R3b_nd(ctx):
         pos = nosite(deep_strip(tm.operand(ia[0].args[2], ia[0].bb)))
         okc = d0[0] == d0[1] and contains(ax, lambda s: s == d0[0]) and contains(pos, lambda s: s[0] == "call" and itm(s[1], "position"))
         okc = okc and rm[0].bb in b.dom.get(ia[0].bb, ()) | {rm[0].bb} and innermost_loop(b, rm[0].bb) == innermost_loop(b, ia[0].bb)
+    # ... and "coincides" is exact equality: a dimension is dropped only when the coordinate *is* a grid value.  A tolerance here
+    # snaps a coordinate to a neighbouring grid value and returns that slice's value (round 7: `abs() < 1e-6` on an axis with a finer
+    # spacing) — the N-D interpolator then disagrees with the 1/2/3-D ones and no longer reproduces multilinear functions
+    oke = False
+    if okc:
+        for pt in [x for x in subterms(pos) if x[0] == "call" and itm(x[1], "position") and len(x[2]) == 2 and x[2][1][0] == "closure" and x[2][1][1] in F.bodies]:
+            cmp_ = as_cmp(clean(Terms(F.bodies[pt[2][1][1]]).return_term()))
+            oke = bool(cmp_) and cmp_[0] == "Eq"
+    ctx.check(oke, "nd:coincidence-is-exact-equality", "the test that drops a dimension is not `grid value == coordinate`", b.where(), detail="position(|g| g == point[dim])")
     ctx.check(okc, "nd:coincident-axis-removed-consistently", "a coordinate that coincides with a grid value is not removed from point, grid and the value view by the same dimension/position", b.where(), detail="point.remove(dim); grid.remove(dim); view.index_axis_inplace(Axis(dim), pos)")
 
 
